@@ -27,6 +27,7 @@ ASSUMPTIONS = [
     'several objects at once (a callback assigning to another object), async callbacks, Skip, depends() and references are outside this model (C06-C10 have their own)',
     'callback cascades are acyclic (a body assigns only parameters of lower index than those its watchers watch); callbacks may (un)register watchers, the watchers they register have empty callbacks',
     'a Watcher object is identified by the order of its creation (uid): the model and the harness both count registrations',
+    'values are integers, plus (on parameters without bounds) callables held by the Dynamic numeric parameter: one fixed function object per model value 100+k producing k; Comparator.is_equal has no rule for functions, so they never compare equal (Dispatch.same)',
     'class-level assignment of a default while the program works on an instance (clsSet) only for ordinary parameters and only when the case has one object; the instance follows the class default until it is assigned itself (World.owned)',
 ]
 RULE = ('directed programs (each statement kind, precedence ties, queued callbacks, nested assignments, unwatch) + random programs: '
